@@ -33,7 +33,7 @@ func DecodeString(b []byte) (_ format.String, size int, err error) {
 
 	// Size
 	dataSize, n := decodeSize(b[:end])
-	if n < 0 {
+	if n <= 0 {
 		err = fmt.Errorf("decode string: invalid data size")
 		return
 	}
